@@ -12,6 +12,8 @@ from .. import uscan
 
 
 def run(ctx):
+    from .configtime import cached_arrays_not_updated_in_place as _cached_arrays
+    _cached_arrays(ctx, 'C14.R4', ('Container.create_solution', 'Container.create_solution_from'))
     model = ctx.model
     from .configtime import config_at_call_time
     config_at_call_time(ctx, 'C14.R3', classes=('Unit', 'Container'))
